@@ -443,7 +443,15 @@ def gen_ops(rng, cfg, dom, n_target, mix=None):
             ops.append(_q(a, b, U, A, tag="dyadic"))
         elif k == "zero":
             x = _t(rng, cfg, dom)
-            ops.append(_q(x, x, U, A, tag="zero"))
+            o = _q(x, x, U, A, tag="zero")
+            if rng.random() < 0.3:
+                # an empty query repeated past the 100-query warm-up of the step-size estimator (a logging hook probing
+                # bm(t, t)): empty queries must not feed the estimator, whatever their position in the history
+                o["rep"] = rng.choice([100, 101, 130])
+                if rng.random() < 0.5:
+                    ops.insert(0, o)   # ... in particular before the first real query
+                    continue
+            ops.append(o)
         elif k == "triple":
             s, u, t = sorted([_t(rng, cfg, dom), _t(rng, cfg, dom), _t(rng, cfg, dom)])
             if rng.random() < 0.3:
